@@ -332,6 +332,17 @@ def degenerate_values(rec):
         smp = np.asarray(cpm.sample(par, cov, n_samples=n_ids, seed=3))
         if smp.shape != (n_ids, 1) or not np.all(np.isfinite(smp)) or np.any(np.abs(smp - 5.0) > 3.0):
             return 'effects %s, covariates %s: CovariatePopulationModel.sample for %d individuals returns %s (expected draws around 5)' % (beta_kind, cov_kind, n_ids, smp.tolist())
+        # nearly equal covariates (tiny values with large effects; values on a large common offset): every individual is drawn around its
+        # own location mu + beta * chi_i (sigma is small, so a draw identifies its location)
+        for covs, slope in ((np.array([[1.0e-9], [2.0e-9], [3.0e-9], [4.0e-9]]), 1.0e9), (np.array([[1.0e6], [1.0e6 + 1.0], [1.0e6 + 2.0], [1.0e6 + 3.0]]), 1.0),
+                            (np.array([[0.5], [0.5 + 2.0e-6], [0.5 + 4.0e-6], [0.5 + 6.0e-6]]), 1.0e6)):
+            if n_cov != 1:
+                continue
+            cpn = real.CovariatePopulationModel(real.GaussianModel(), real.LinearCovariateModel(n_cov=1))
+            smp = np.asarray(cpn.sample([2.0, 0.01, slope, 0.0], covs, n_samples=4, seed=4), dtype=float).flatten()
+            loc = 2.0 + slope * covs.flatten()
+            if smp.shape != (4,) or np.any(np.abs(smp - loc) > 0.1):
+                return 'covariates %s with effect %s: the four sampled individuals are %s, their own sub-populations are centred at %s (sigma 0.01)' % (covs.flatten().tolist(), slope, smp.tolist(), loc.tolist())
         cpp = real.CovariatePopulationModel(real.PooledModel(), real.LinearCovariateModel(n_cov=n_cov))
         cpp.set_n_ids(n_ids)
         psi = np.asarray(cpp.compute_individual_parameters(np.concatenate([[2.0], beta[:n_cov]]), eta=np.zeros((n_ids, 1)), covariates=cov))
